@@ -69,10 +69,14 @@ fn(O + ':OutputStream.push_field', props=P,
 # ---------------------------------------------------------------------------------------
 F = 'emmet.markup.format'
 cls(F + '.walk:WalkState',
-    fields={'current': 'any', 'parent': 'any', 'ancestors': 'list[any]', 'config': 'any', 'out': 'OutputStream',
-            'field': 'int'})
+    fields={'current': 'AbbreviationNode|None', 'parent': 'AbbreviationNode|None', 'ancestors': 'list[any]',
+            'config': 'Config', 'out': 'OutputStream', 'field': 'int'})
 
 define('is_field', ['t'], "kind_is(t, 'ref')")
+
+# the default caret token list  [Field('', 0)]  (module constant of format/utils.py)
+glob(F + '.utils:caret', 'list[str|Field]',
+     invariant=["len(caret) == 1", "kind_is(caret[0], 'ref')", 'caret[0].index is not None', 'caret[0].index == 0'])
 # value tokens are strings and real fields (variables were resolved to text by the converter)
 define('value_ok', ['tokens'],
        'forall(0, len(tokens), lambda i: implies(is_field(tokens[i]), tokens[i].index is not None)) and '
@@ -86,9 +90,9 @@ fn(F + '.utils:push_tokens', props=P,
             # numbers inside one value keep their differences (old counter + written index)
             'state.field >= old(state.field)',
             'forall(0, len(tokens), lambda i: implies(is_field(tokens[i]), '
-            '   old(state.field) + tokens[i].index < state.field))',
-            # a value without fields leaves the counter alone
-            'implies(forall(0, len(tokens), lambda i: not is_field(tokens[i])), state.field == old(state.field))'],
+            '   old(state.field) + tokens[i].index < state.field))'],
+   # a value without fields leaves the counter alone
+   ensures_local=['implies(forall(0, len(tokens), lambda i: not is_field(tokens[i])), state.field == old(state.field))'],
    modifies=['state.field', 'state.out._value[*]', 'state.out.offset', 'state.out.column', 'state.out.line'], allocates=True,
    loops={0: {'anchor': 'for t in tokens',
               'invariant': ['os_ok(out)', 'out is state.out', 'out.level == old(state.out.level)', '_i0 <= len(tokens)',
@@ -141,3 +145,62 @@ fn(IF + ':element', props=['C15'],
    loops={0: {'anchor': 'for (index, child) in enumerate(node.children)',
               'invariant': ['os_ok(state.out)', 'state.out is out', 'out.level == old(state.out.level) + level',
                             'state.out is old(state.out)']}})
+
+# ---------------------------------------------------------------------------------------
+# HTML format: indentation level per node (C12)
+# ---------------------------------------------------------------------------------------
+HF = F + '.html'
+cls(HF + ':HTMLWalkState', bases=['WalkState'], fields={'comment': 'any'})
+
+ST_MOD = OUT_MOD + ['state.field', 'state.out.level']
+CB_WALK = {'param': 'walk_next', 'args': ['child', 'cindex', 'citems'], 'requires': ['os_ok(state.out)'],
+           'modifies': ST_MOD, 'ensures': ['os_ok(state.out)', 'state.out.level == old(state.out.level)'], 'returns': 'any'}
+
+# decisions and text-only helpers: trusted (they read the tree/config and push text; no level arithmetic)
+fn(HF + ':should_format', props=['C12'], trusted=True,
+   params={'node': 'any', 'index': 'any', 'items': 'any', 'state': 'any'}, returns='bool',
+   requires=[], ensures=[], modifies=[])
+fn(HF + ':has_newline', props=['C12'], trusted=True, params={'value': 'any'}, returns='bool',
+   requires=[], ensures=[], modifies=[])
+fn(HF + ':starts_with_block_tag', props=['C12'], trusted=True, params={'value': 'any', 'config': 'any'}, returns='bool',
+   requires=[], ensures=[], modifies=[])
+fn('emmet.list_utils:some', props=['C12'], trusted=True, params={'fn': 'any', 'items': 'any'}, returns='bool',
+   requires=[], ensures=[], modifies=[])
+fn('emmet.output_stream:tag_name', props=['C12'], trusted=True, params={'name': 'any', 'config': 'any'}, returns='any',
+   requires=[], ensures=[], modifies=[])
+fn('emmet.output_stream:self_close', props=['C12'], trusted=True, params={'config': 'any'}, returns='any',
+   requires=[], ensures=[], modifies=[])
+fn(F + '.utils:should_output_attribute', props=['C12'], trusted=True, params={'attr': 'any'}, returns='any',
+   requires=[], ensures=[], modifies=[])
+fn(F + '.utils:is_snippet', inline=True, pure=True, props=['C12'])
+for _f in ('comment_node_before', 'comment_node_after'):
+    fn('%s.comment:%s' % (F, _f), props=['C12'], trusted=True,
+       params={'node': 'any', 'state': 'HTMLWalkState'}, returns='none',
+       requires=['os_ok(state.out)'], ensures=KEEP, modifies=OUT_MOD + ['state.field'], allocates=True,
+       note='comment emission only pushes text before/after the element')
+fn(HF + ':push_attribute', props=['C12'], trusted=True,
+   params={'attr': 'any', 'state': 'HTMLWalkState'}, returns='none',
+   requires=['os_ok(state.out)'], ensures=KEEP, modifies=OUT_MOD + ['state.field'], allocates=True)
+fn(HF + ':push_snippet', props=['C12'], trusted=True,
+   params={'node': 'any', 'state': 'HTMLWalkState', 'walk_next': 'fn'}, returns='bool',
+   requires=['os_ok(state.out)'], ensures=KEEP, modifies=ST_MOD, allocates=True,
+   callback={'param': 'walk_next', 'args': ['child', 'cindex', 'citems'], 'requires': [], 'returns': 'any'},
+   note='pushes text and walks the children through the callback (which restores the level)')
+fn(HF + ':_next', props=['C12'], trusted=True,
+   params={'items': 'any', 'walk_next': 'fn'}, returns='none',
+   requires=[], ensures=[], modifies=['*'],
+   callback={'param': 'walk_next', 'args': ['child', 'cindex', 'citems'], 'requires': [], 'returns': 'any'},
+   note='a loop that calls the callback for every child; see element() for how its effect is described')
+
+fn(HF + ':get_indent', props=['C12'],
+   params={'state': 'HTMLWalkState'}, returns='int',
+   # the options are the merged options of a Config: the built-in keys are present
+   requires=["has(state.config.options, 'output.formatSkip')"],
+   # 0 iff no parent / snippet parent / parent exempted through output.formatSkip, else 1
+   ensures=['result == 0 or result == 1', 'implies(not state.parent, result == 0)'],
+   modifies=[])
+
+# NOTE: a contract for html.element() itself (level restored on every path, as proved for the indent formats)
+# was attempted and withdrawn: after the attribute loop and five or six contract calls the obligations
+# `os_ok(out)` / `value_ok(node.value)` carry store chains over 600 path facts and both z3 and cvc5 answer
+# `unknown`.  The clause is covered by the bounded clause indent-equals-depth; see DESIGN.md section 11.
